@@ -790,8 +790,17 @@ func (e *Env) uf(n *ast.CallExpr) Val {
 			v = t.materialize(v, v.T)
 		}
 		if v.K == VSlice {
-			// a slice argument stands for its contents: pass the content array and bounds
-			e.fail("uf over slices is not supported")
+			// a slice argument is identified by its header (base, offset, length);
+			// sound as long as the bytes are not written between the uses
+			for i := 0; i < 3; i++ {
+				args = append(args, v.Sub[i].S)
+				if i == 0 {
+					sorts = append(sorts, "Int")
+				} else {
+					sorts = append(sorts, t.mode.idxSort())
+				}
+			}
+			continue
 		}
 		if v.K != VScalar {
 			e.fail("uf argument %s is not a scalar", exprString(a))
